@@ -68,8 +68,11 @@ void vf_dump_hook(unsigned call_no, const json_t *tree, size_t flags, const char
 		snap_member(&d->exp, tree, "exp");
 		snap_member(&d->cx, tree, "cx");
 	}
-	__CPROVER_assert((flags & JSON_SORT_KEYS) && (flags & JSON_COMPACT),
-			 "C10: token JSON is dumped compact with sorted keys");
+	/* the printer is an oracle: the only thing libjwt decides about the text is the flag word.
+	 * Anything beyond SORT_KEYS|COMPACT (precision, ASCII escaping, embedding...) changes how
+	 * values are written and thereby what a checker reads back. */
+	PROP(flags == (JSON_SORT_KEYS | JSON_COMPACT),
+	     "C05/C10: token JSON is serialised canonically (sorted keys, compact, full precision: no other dump flag)");
 }
 
 /* ------------------------------------------------------------------ callback */
